@@ -186,7 +186,233 @@ rec_model!(DedupV0 { a: DeduplicatedString, b: String, c: DeduplicatedString });
 rec_model!(MaxSteps { a: u8, b: String });
 rec_model!(BadEvolution { a: u8 });
 
+
+// ---- the Scala golden data set (desert_macro/golden/dataset1.bin): same declarations as the repository's golden test ----
+
+pub mod golden {
+    use super::*;
+    use desert::{BinaryDeserializer, BinaryInput, BinaryOutput, BinarySerializer, DeserializationContext, SerializationContext};
+
+    #[derive(BinaryCodec)]
+    #[evolution(FieldMadeOptional("option"), FieldAdded("string", "default string".to_string()), FieldAdded("set", HashSet::new()))]
+    pub struct TestModel1 {
+        pub byte: i8,
+        pub short: i16,
+        pub int: i32,
+        pub long: i64,
+        pub float: f32,
+        pub double: f64,
+        pub boolean: bool,
+        pub unit: (),
+        pub string: String,
+        pub uuid: Uuid,
+        pub exception: Throwable,
+        pub list: Vec<ListElement1>,
+        pub array: Vec<i64>,
+        pub vector: Vec<ListElement1>,
+        pub set: HashSet<String>,
+        pub either: Result<bool, String>,
+        pub tried: Result<ListElement2, Throwable>,
+        pub option: Option<HashMap<String, ListElement2>>,
+    }
+
+    #[derive(BinaryCodec)]
+    pub struct ListElement1 {
+        pub id: String,
+    }
+
+    #[derive(BinaryCodec)]
+    #[sorted_constructors]
+    pub enum ListElement2 {
+        First {
+            elem: ListElement1,
+        },
+        #[evolution(FieldMadeTransient("cached"))]
+        Second {
+            uuid: Uuid,
+            desc: Option<String>,
+            #[transient(None)]
+            _cached: Option<String>,
+        },
+        #[transient]
+        Third {
+            _file: u8,
+        },
+    }
+
+    #[derive(BinaryCodec)]
+    pub struct Throwable {
+        pub class_name: String,
+        pub message: String,
+        pub stack_trace: Vec<StackTraceElement>,
+        pub cause: Option<Box<Throwable>>,
+    }
+
+    pub struct StackTraceElement {
+        pub class_name: Option<String>,
+        pub method_name: Option<String>,
+        pub file_name: Option<String>,
+        pub line_number: u32,
+    }
+
+    impl BinarySerializer for StackTraceElement {
+        fn serialize<Output: BinaryOutput>(&self, context: &mut SerializationContext<Output>) -> desert::Result<()> {
+            context.write_u8(0);
+            self.class_name.serialize(context)?;
+            self.method_name.serialize(context)?;
+            self.file_name.serialize(context)?;
+            context.write_var_u32(self.line_number);
+            Ok(())
+        }
+    }
+
+    impl BinaryDeserializer for StackTraceElement {
+        fn deserialize(context: &mut DeserializationContext<'_>) -> desert::Result<Self> {
+            let hdr = context.read_u8()?;
+            if hdr != 0 {
+                return Err(desert::Error::DeserializationFailure("stack trace element header".into()));
+            }
+            Ok(StackTraceElement {
+                class_name: Option::<String>::deserialize(context)?,
+                method_name: Option::<String>::deserialize(context)?,
+                file_name: Option::<String>::deserialize(context)?,
+                line_number: context.read_var_u32()?,
+            })
+        }
+    }
+
+    impl Model for StackTraceElement {
+        fn ty() -> Ty {
+            Ty::Named("StackTraceElement".into())
+        }
+        fn from_val(v: &Val) -> Self {
+            match v {
+                Val::Rec(f) if f.len() == 4 => StackTraceElement {
+                    class_name: Model::from_val(&f[0]),
+                    method_name: Model::from_val(&f[1]),
+                    file_name: Model::from_val(&f[2]),
+                    line_number: match &f[3] {
+                        Val::U(x) => *x as u32,
+                        _ => panic!("harness: line number"),
+                    },
+                },
+                _ => panic!("harness: from_val::<StackTraceElement>"),
+            }
+        }
+        fn to_val(&self) -> Val {
+            Val::Rec(vec![self.class_name.to_val(), self.method_name.to_val(), self.file_name.to_val(), Val::U(self.line_number as u128)])
+        }
+    }
+
+    rec_model!(ListElement1 { id: String });
+    rec_model!(Throwable { class_name: String, message: String, stack_trace: Vec<StackTraceElement>, cause: Option<Box<Throwable>> });
+    rec_model!(TestModel1 {
+        byte: i8, short: i16, int: i32, long: i64, float: f32, double: f64, boolean: bool, unit: (), string: String, uuid: Uuid,
+        exception: Throwable, list: Vec<ListElement1>, array: Vec<i64>, vector: Vec<ListElement1>, set: HashSet<String>,
+        either: Result<bool, String>, tried: Result<ListElement2, Throwable>, option: Option<HashMap<String, ListElement2>>
+    });
+
+    impl Model for ListElement2 {
+        fn ty() -> Ty {
+            Ty::Named("ListElement2".into())
+        }
+        fn from_val(v: &Val) -> Self {
+            match v {
+                Val::Ctor(0, f) => ListElement2::First { elem: Model::from_val(&f[0]) },
+                Val::Ctor(1, f) => ListElement2::Second { uuid: Model::from_val(&f[0]), desc: Model::from_val(&f[1]), _cached: Model::from_val(&f[2]) },
+                Val::Ctor(2, f) => ListElement2::Third { _file: Model::from_val(&f[0]) },
+                _ => panic!("harness: from_val::<ListElement2>"),
+            }
+        }
+        fn to_val(&self) -> Val {
+            match self {
+                ListElement2::First { elem } => Val::Ctor(0, vec![elem.to_val()]),
+                ListElement2::Second { uuid, desc, _cached } => Val::Ctor(1, vec![uuid.to_val(), desc.to_val(), _cached.to_val()]),
+                ListElement2::Third { _file } => Val::Ctor(2, vec![_file.to_val()]),
+            }
+        }
+    }
+
+    pub fn register(reg: &mut Registry) {
+        let rec = |name: &str, fields: Vec<FieldSchema>, steps: Vec<Step>| RecordSchema { name: name.into(), fields, steps };
+        refmodel::register(
+            "StackTraceElement",
+            Ty::Record(Arc::new(rec(
+                "StackTraceElement",
+                vec![
+                    f::<Option<String>>("class_name", true),
+                    f::<Option<String>>("method_name", true),
+                    f::<Option<String>>("file_name", true),
+                    FieldSchema { name: "line_number".into(), ty: Ty::VarU32, opt_by_name: false, transient: false, default: None },
+                ],
+                vec![],
+            ))),
+        );
+        refmodel::register("ListElement1", Ty::Record(Arc::new(rec("ListElement1", vec![f::<String>("id", false)], vec![]))));
+        refmodel::register(
+            "Throwable",
+            Ty::Record(Arc::new(rec(
+                "Throwable",
+                vec![f::<String>("class_name", false), f::<String>("message", false), f::<Vec<StackTraceElement>>("stack_trace", false), f::<Option<Box<Throwable>>>("cause", true)],
+                vec![],
+            ))),
+        );
+        refmodel::register(
+            "ListElement2",
+            Ty::Enum(Arc::new(EnumSchema {
+                name: "ListElement2".into(),
+                sorted: true,
+                variants: vec![
+                    VariantSchema { name: "First".into(), kind: VariantKind::Struct, transient: false, record: rec("First", vec![f::<ListElement1>("elem", false)], vec![]) },
+                    VariantSchema {
+                        name: "Second".into(),
+                        kind: VariantKind::Struct,
+                        transient: false,
+                        record: rec(
+                            "Second",
+                            vec![f::<Uuid>("uuid", false), f::<Option<String>>("desc", true), sbase::fs::<Option<String>>("_cached", true, true, Some(Val::None))],
+                            vec![Step::MadeTransient("cached".into())],
+                        ),
+                    },
+                    VariantSchema { name: "Third".into(), kind: VariantKind::Struct, transient: true, record: rec("Third", vec![f::<u8>("_file", false)], vec![]) },
+                ],
+            })),
+        );
+        refmodel::register(
+            "TestModel1",
+            Ty::Record(Arc::new(rec(
+                "TestModel1",
+                vec![
+                    f::<i8>("byte", false),
+                    f::<i16>("short", false),
+                    f::<i32>("int", false),
+                    f::<i64>("long", false),
+                    f::<f32>("float", false),
+                    f::<f64>("double", false),
+                    f::<bool>("boolean", false),
+                    f::<()>("unit", false),
+                    sbase::fs::<String>("string", false, false, Some(Val::Str("default string".into()))),
+                    f::<Uuid>("uuid", false),
+                    f::<Throwable>("exception", false),
+                    f::<Vec<ListElement1>>("list", false),
+                    f::<Vec<i64>>("array", false),
+                    f::<Vec<ListElement1>>("vector", false),
+                    sbase::fs::<HashSet<String>>("set", false, false, Some(Val::Seq(vec![]))),
+                    f::<Result<bool, String>>("either", false),
+                    f::<Result<ListElement2, Throwable>>("tried", false),
+                    f::<Option<HashMap<String, ListElement2>>>("option", true),
+                ],
+                vec![Step::MadeOptional("option".into()), Step::Added("string".into()), Step::Added("set".into())],
+            ))),
+        );
+        reg.add_tagged::<TestModel1>("TestModel1", &["special:golden"]);
+        reg.add_tagged::<Throwable>("Throwable", &["special:golden", "recursive"]);
+        reg.add_tagged::<ListElement2>("ListElement2", &["special:golden"]);
+    }
+}
+
 pub fn register(reg: &mut Registry) {
+    golden::register(reg);
     refmodel::register(
         "DeepRec",
         Ty::Record(Arc::new(RecordSchema {
